@@ -10,7 +10,9 @@ if [ -f "$D/demo.py" ]; then
   ( cd /tmp && PYTHONPATH=/repo/src timeout 600 /venv/bin/python "$D/demo.py" >/tmp/mt_demo0_$$.log 2>&1 ); echo "demo without change: exit $? (expect 0)"
 fi
 for id in "$@"; do
-  QVERIF_SRC=$W/src QVERIF_EVIDENCE_DIR=/tmp/mt_ev_$$ /verif/check $id --tier ${TIER:-quick} 2>&1 | grep -E "VIOLATION|KNOWN|UNCONF|^\[$id\]|harness-error|inconclusive" | head -12
-  echo "check $id exit: ${PIPESTATUS[0]}"
+  QVERIF_SRC=$W/src QVERIF_EVIDENCE_DIR=/tmp/mt_ev_$$ /verif/check $id --tier ${TIER:-quick} > /tmp/mt_out_$$.log 2>&1
+  rc=$?   # (taken from the check itself: a `| head` closing the pipe early used to kill the check with SIGPIPE)
+  grep -E "VIOLATION|KNOWN|UNCONF|^\[$id\]|harness-error|inconclusive" /tmp/mt_out_$$.log | head -12
+  echo "check $id exit: $rc"
 done
-git -C /repo worktree remove --force $W; rm -rf /tmp/mt_ev_$$ /tmp/mt_demo_$$.log /tmp/mt_demo0_$$.log
+git -C /repo worktree remove --force $W; rm -rf /tmp/mt_ev_$$ /tmp/mt_demo_$$.log /tmp/mt_demo0_$$.log /tmp/mt_out_$$.log
